@@ -27,6 +27,7 @@ import (
 	"os"
 	"path/filepath"
 	"reflect"
+	"regexp"
 	"sort"
 	"strings"
 
@@ -391,6 +392,8 @@ type groupSpec struct {
 	at       string // "" or a capture name
 	suggest  string // "" = none
 	altLines []int
+	noReport bool // Suggest() without Report(): the message is "suggestion: " + the Suggest template
+	dup      bool // the first alternative is written twice: the lines of the later alternatives must not shift
 }
 
 type engineObs struct {
@@ -504,6 +507,15 @@ func engineLevel(enc *json.Encoder, tmp string, rng *rand.Rand, ngroups int) {
 		if gi%8 == 2 {
 			g.suggest, g.at = "OWN", ""
 		}
+		if gi%8 == 5 {
+			g.noReport = true
+			if g.suggest == "" {
+				g.suggest = "$" + strings.Join(g.names, "+$")
+			}
+		}
+		if gi%8 == 6 {
+			g.alts, g.dup = 2, true
+		}
 		g.fn, g.wgroup = fmt.Sprintf("p%d", gi), fmt.Sprintf("g%d", gi)
 		groups = append(groups, g)
 	}
@@ -570,6 +582,9 @@ func engineLevel(enc *json.Encoder, tmp string, rng *rand.Rand, ngroups int) {
 		for alt := 0; alt < g.alts; alt++ {
 			g.altLines = append(g.altLines, line)
 			w("\t\t`" + patText(gi, alt) + "`,\n")
+			if alt == 0 && g.dup {
+				w("\t\t`" + patText(gi, alt) + "`,\n") // the same alternative once more: it never matches first, its line is nobody's
+			}
 			if alt == 0 && gi%2 == 0 {
 				w("\n") // alternatives need not be on consecutive lines
 			}
@@ -578,12 +593,16 @@ func engineLevel(enc *json.Encoder, tmp string, rng *rand.Rand, ngroups int) {
 		if g.at != "" {
 			w(fmt.Sprintf(".\n\t\tAt(m[%q])", g.at))
 		}
-		w(".\n\t\tReport(`" + g.msg + "`)")
+		sg := g.suggest
+		if sg == "OWN" {
+			sg = strings.ReplaceAll(patText(gi, 0), "$*", "$")
+		}
+		if g.noReport {
+			g.msg = "suggestion: " + sg // what a call without Report() reports
+		} else {
+			w(".\n\t\tReport(`" + g.msg + "`)")
+		}
 		if g.suggest != "" {
-			sg := g.suggest
-			if sg == "OWN" {
-				sg = strings.ReplaceAll(patText(gi, 0), "$*", "$")
-			}
 			w(".\n\t\tSuggest(`" + sg + "`)")
 		}
 		w("\n}\n\n")
@@ -593,8 +612,12 @@ func engineLevel(enc *json.Encoder, tmp string, rng *rand.Rand, ngroups int) {
 	w("func gc(m dsl.Matcher) {\n\tm.MatchComment(\n")
 	cLines[0] = line
 	w("\t\t`alpha-\\d+`,\n\n")
+	w("\t\t`alpha-\\d+`,\n") // written twice: the line of `beta` must stay its own
 	cLines[1] = line
 	w("\t\t`beta-\\d+`,\n\t).Report(`c:$$`)\n}\n")
+	// a comment rule with Suggest() only: the message is the suggestion template behind "suggestion: ", truncated there and
+	// nowhere else
+	w("\nfunc gs(m dsl.Matcher) {\n\tm.MatchComment(`gamma-(?P<long>\\w+)`).Suggest(`<$long|$$>`)\n}\n")
 
 	// ---- target file
 	var tb strings.Builder
@@ -604,7 +627,7 @@ func engineLevel(enc *json.Encoder, tmp string, rng *rand.Rand, ngroups int) {
 			fmt.Fprintf(&tb, "func %s_%d(args ...interface{}) int { return 0 }\n", g.fn, alt)
 		}
 	}
-	tb.WriteString("\n// alpha-1 here\n/* x beta-22 y */\n\n")
+	tb.WriteString("\n// alpha-1 here\n/* x beta-22 y */\n// see gamma-0123456789012345678901234567890123456789 there\n\n")
 	var sites []site
 	curFn := ""
 	emitSite := func(gi, alt int, prefix string) {
@@ -796,10 +819,14 @@ func engineLevel(enc *json.Encoder, tmp string, rng *rand.Rand, ngroups int) {
 		src, sh := v.src, v.shift
 		// reports by the start offset of the whole-match site they belong to
 		bySite := map[int][]frep{}
-		var commentReports []frep
+		var commentReports, suggOnly []frep
 		for _, r := range reports {
 			if r.Group == "gc" {
 				commentReports = append(commentReports, r)
+				continue
+			}
+			if r.Group == "gs" {
+				suggOnly = append(suggOnly, r)
 				continue
 			}
 			// a report belongs to the site whose span contains its node
@@ -888,6 +915,21 @@ func engineLevel(enc *json.Encoder, tmp string, rng *rand.Rand, ngroups int) {
 		}
 		if len(commentReports) != 2 {
 			enc.Encode(engineObs{K: "engine-comment", L: L, Missing: true, Extra: len(commentReports)})
+		}
+		// the Suggest-only comment rule: spans from the file's bytes, texts by the specification
+		if ix := regexp.MustCompile(`gamma-(\w+)`).FindSubmatchIndex(src); ix != nil {
+			caps := []capSpec{{Name: "long", Text: src[ix[2]:ix[3]]}}
+			o := engineObs{K: "engine-suggonly", L: L, Msg: "suggestion: <$long|$$>", Sugg: "<$long|$$>", Version: v.what, Caps: caps, Whole: capSpec{Text: src[ix[0]:ix[1]]},
+				WPos: ix[0], WEnd: ix[1], WHasSugg: true}
+			o.WMsg = []byte(interpSpec(o.Msg, caps, o.Whole.Text, true, L))
+			o.WSugg = []byte(interpSpec(o.Sugg, caps, o.Whole.Text, false, L))
+			if len(suggOnly) != 1 {
+				o.Missing, o.Extra = true, len(suggOnly)
+			} else {
+				r := suggOnly[0]
+				o.OMsg, o.OPos, o.OEnd, o.OHasSugg, o.OSuggFrom, o.OSuggTo, o.OSugg = []byte(r.Message), r.Pos, r.End, r.HasSugg, r.SuggFrom, r.SuggTo, []byte(r.Sugg)
+			}
+			enc.Encode(o)
 		}
 	}
 	for _, L := range []int{0, 20, 1000} {
